@@ -70,7 +70,8 @@ def generate(rng, tier):
     pfbs = []
     for _ in range(npfb):
         T = rng.choice([1, 2, 2, 3, 4, 4, 5, 8])
-        B = rng.choice([4, 8, 8, 16, 16, 32, 64, 6, 10, 12, 24] + ([128, 256] if tier == "thorough" else []))
+        # ... including branch counts with a large prime factor (transform lengths an implementation might "round up")
+        B = rng.choice([4, 8, 8, 16, 16, 32, 64, 6, 10, 12, 24, 26, 34, 14, 22, 38] + ([128, 256, 46, 58] if tier == "thorough" else []))
         kinds = ALL_KINDS if rng.random() < 0.35 else KINDS[:4]
         pfbs.append({"T": T, "B": B, "window": rng.choice(WINDOWS), "kind": rng.choice(kinds),
                      "seed": rng.randrange(1 << 30)})
